@@ -51,6 +51,23 @@ pub fn find_sub(name: &str) -> Option<Sub> {
     all_subs().into_iter().find(|s| s.name == name)
 }
 
+/// sub-checks that take raw bytes (used to replay fuzz corpora and artifacts through the plain binaries)
+pub fn byte_subs(prop: &str) -> Vec<Sub> {
+    match prop {
+        "C03" => vec![c03::SUB_BYTES],
+        "C04" => vec![c04::SUB_B3, c04::SUB_B5],
+        "C06" => vec![c06::SUB_B3, c06::SUB_B5],
+        "C11" => vec![c11::SUB_B3, c11::SUB_B5],
+        "C12" => vec![c12::SUB_B3, c12::SUB_B5],
+        _ => Vec::new(),
+    }
+}
+
+/// fuzz inputs of this property are [control byte] ++ rest and need the header re-synthesised
+pub fn fuzz_framed(prop: &str) -> bool {
+    prop == "C04"
+}
+
 pub fn static_prop(p: &str) -> Option<&'static str> {
     ALL.iter().copied().find(|x| *x == p)
 }
